@@ -64,8 +64,8 @@ CHECKS["C07"] = {
 CHECKS["C04"] = {
     "category": "model_checking",
     "technique": MC + " (all states x all mutators x valid/convertible/invalid payloads, independent re-validation walk)",
-    "text": "Nine container trait configurations (List(Int), List(Int,1..3), List(CInt,maxlen=2), List(Instance), "
-            "List(List(Int,maxlen=2),maxlen=2), Dict(Str,Int), Dict(CStr,List(Int)), Set(Int), Set(CInt)): every "
+    "text": "Twelve container trait configurations (List(Int), List(Int,1..3), List(CInt,maxlen=2), List(Instance), "
+            "List(List(Int,maxlen=2),maxlen=2), Dict(Str,Int), Dict(CStr,List(Int)), Set(Int), Set(CInt), a List with items=False, a List reached through PrototypedFrom, a List re-declared on a subclass of a class that had it as a Property): every "
             "contents state up to the bound, installed by whole-value assignment, x every mutator with every "
             "index/slice and payloads carrying an invalid item at every position, on the outer container, on a "
             "nested inner container and by re-assignment; after each operation an independent walk re-validates "
@@ -79,13 +79,13 @@ CHECKS["C04"] = {
 CHECKS["C01"] = {
     "category": "exploration",
     "technique": "bounded exhaustive enumeration of (trait configuration x value lattice x assignment route x pre-state) against independent domain predicates",
-    "text": "About 2100 trait configurations (all scalar/cast types, every open/closed/half-bounded int and float "
-            "Range shape incl. dynamic named bounds, String length/regex grid, Enum, Tuple nestings, Instance/Type/"
-            "Supports/AdaptsTo with allow_none and adapt modes, Callable, PrefixList/PrefixMap/Map, dates, Array "
+    "text": "About 2300 trait configurations (all scalar/cast types, every open/closed/half-bounded int and float "
+            "Range shape incl. dynamic named bounds that are moved between assignments, String length/regex grid, Enum, Tuple nestings, Instance/Type/"
+            "Supports/AdaptsTo with allow_none and adapt modes, also by class name and as clone()d definitions, Callable, PrefixList/PrefixMap/Map, dates, Array "
             "dtype/shape/casting grid, File/Directory, and every ordered pair of 30 member traits as Either and as "
             "Union) x a 150-value lattice (boundary floats, NaN/inf, huge ints, subclasses, numpy scalars/arrays, "
             "objects whose __index__/__float__/__complex__ succeed, return wrong types or raise) x setattr / "
-            "constructor / trait_set x fresh / previously-stored pre-state: the value read back must satisfy an "
+            "constructor / trait_set / trait_setq x fresh / previously-stored pre-state: the value read back must satisfy an "
             "independently written in-domain predicate and (where documented) the acceptance and conversion model; "
             "a rejection must be a TraitError naming the attribute with a bit-identical __dict__; other exceptions "
             "only from the value's own protocol.",
@@ -111,27 +111,27 @@ CHECKS["C03"] = {
 CHECKS["C02"] = {
     "category": "model_checking",
     "technique": MC + " (history BFS with canonical-state dedup; oracle counts_as_change(mode, old, new) on stored objects)",
-    "text": "For 12 trait kinds (Any, Int, Str, Float, List, Instance, AdaptsTo, Supports, Expression, Event, "
-            "Event(Int), an Event reached through PrototypedFrom) x comparison modes none/identity/equality x 12 'which handler raises' variants: every "
+    "text": "For 13 trait kinds (Any, Int, Str, Float, List, Instance, AdaptsTo, Supports, Expression, Event, "
+            "Event(Int), an Event and an Int reached through PrototypedFrom) x comparison modes none/identity/equality x 12 'which handler raises' variants: every "
             "history up to depth 4 (6 thorough) of assignments from a pool (equal-but-not-identical objects, two NaN "
             "objects, a value whose == raises, values whose repr raises, converted and rejected values) and default reads; after each step "
             "all eleven handlers (static _x_changed in the class and _x_fired inherited from a base class, "
             "_anytrait_changed, two on_trait_change, two observe, on_trait_change and observe with ui dispatch, "
-            "@on_trait_change- and @observe-decorated methods; assignments by attribute and by trait_set) must have "
+            "@on_trait_change- and @observe-decorated methods; assignments by attribute, by trait_set and (calling nobody) by trait_setq, from the main thread and from a worker thread with a queueing UI handler) must have "
             "been called exactly once iff the statement's rule counts the step as a change, with old the object "
             "stored before and new the object stored after; nothing for rejected assignments and default reads; "
             "Events always with old Undefined; a raising handler changes nothing for the others.",
-    "note": "dispatch='same' only; depth bound 4/6 with dedup on (stored object, default materialised) which is the "
+    "note": "dispatch same and ui; depth bound 4/6 with dedup on (stored object, default materialised) which is the "
             "whole state because registrations are fixed per configuration; for == raising only agreement between "
             "mechanisms is required",
 }
 CHECKS["C08"] = {
     "category": "model_checking",
     "technique": MC + " (history BFS over graph mutations with canonical graph+notifier-fingerprint dedup; reachability interpreter as oracle; probe of every object after every history)",
-    "text": "21 observe expressions (series, '.'/':' links, list/dict/set items, nested containers, parallel branches, "
+    "text": "24 observe expressions (series, '.'/':' links, list/dict/set items, nested containers, parallel branches, "
             "lazy default, metadata filter as last link, as intermediate link and over containers, nested lists, "
-            "anytrait, container-change targets, re-definition of an observed trait by add_trait) on "
-            "a pool of 3 interlinked objects: every history up to depth 4 (5 thorough) over the expression's event "
+            "anytrait, container-change targets, re-definition of an observed trait by add_trait, deletion of an observed link) on "
+            "a pool of 3 interlinked objects, the link expressions also on node classes whose __eq__ makes all nodes equal or raises for foreign operands: every history up to depth 4 (5 thorough) over the expression's event "
             "menu (link reassignment incl. self => cycles, every list mutator incl. duplicates, extended-slice "
             "delete, *=, equal and unequal whole-list reassignment, dict set/del, set add/discard, default "
             "materialisation, add_trait), registration before or after the history; the step itself must deliver "
@@ -161,12 +161,12 @@ CHECKS["C09"] = {
 CHECKS["C12"] = {
     "category": "model_checking",
     "technique": MC + " (history BFS with dedup on graph+values+cache contents+notifier fingerprint; independent recomputation as oracle)",
-    "text": "Eight observed properties (cached and uncached, scalar, Instance link, list/dict/set items, nested "
-            "path, a subclass overriding an inherited plain getter with a cached one, one whose only listener is an anytrait "
+    "text": "Nine observed properties (cached and uncached, scalar, Instance link, list/dict/set items, nested "
+            "path, a cached property with a setter, a subclass overriding an inherited plain getter with a cached one, one whose only listener is an anytrait "
             "handler) on a pool of 3 objects; every "
             "history up to depth 3 (4 thorough) over ~55 events: dependency mutations incl. duplicates/sharing/"
             "whole-list assignment with duplicates, scalar changes on every object, explicit cache-filling reads, "
-            "static handlers that read cached properties, and pickle / deepcopy / clone_traits of the pool at any "
+            "static handlers that read cached properties, and pickle / deepcopy / clone_traits / copy_traits of the pool at any "
             "point. At the end of every history each property is read twice: first read must equal an independent "
             "recomputation, second must not run a cached getter again, a getter never runs twice for one read; a "
             "last step that alters a recomputed value must reach the on_trait_change and the observe handler with "
@@ -183,7 +183,7 @@ CHECKS["C16"] = {
             "thorough) over tree-preserving mutations of the first three objects (fresh object at every insertion: "
             "child reassignment, list append/insert/pop/del/slice/whole-value/reverse/member-reusing reassignment, "
             "dict set/del/update replacing and inserting at once), collection of a bound-method owner, removal of an "
-            "unrelated registration under another name and removal of the registration; after every history the final attribute of every object ever created is written: the "
+            "unrelated registration under another name and removal of the registration; after every history the final attribute of every object ever created is written; a second world declares the handlers with the @on_trait_change/@observe decorators and adds deepcopy/clone_traits events with the history continuing on the copy; one cell per name style registers with dispatch='ui' and mutates from a worker thread: the "
             "legacy handler must be called exactly once iff the object is currently reachable along the name "
             "(interpreter) and the observe handler must agree; link reassignments must be reported for '.' links "
             "and never for ':' links; after removal nothing is called.",
@@ -195,10 +195,10 @@ CHECKS["C10"] = {
     "technique": MC + " (history BFS with fresh class hierarchy per execution and dedup on instance state; pristine-baseline differential + identity walk)",
     "text": "Class with one trait per default kind (constant, Any list/dict copy, List/Dict/Set, Instance factory, "
             "_name_default method, Tuple with container member before/after a constant member, Union with container "
-            "member, Array, Any(factory=...)) and a subclass overriding four defaults, rebuilt for every execution. "
+            "member, Array, Any(factory=...), one trait definition object shared by three attributes and a second class, a Map with a default method, a property-style TraitType built on get_value/set_value, a dynamic Enum(values=name) with a default method) and a subclass overriding four defaults, rebuilt for every execution. "
             "Every history up to depth 3 over ~115 operations on one instance (read, in-place mutation of the "
             "default container, assign, del, on_trait_change/observe add+remove, add_trait same/new name, "
-            "remove_trait, trait_set, reset_traits, traits()/trait_get()/trait_names()/clone_traits() calls) for an "
+            "remove_trait, trait_set, reset_traits, traits()/trait_get()/trait_names()/clone_traits() calls, copy_traits from and to a sibling) for an "
             "acting instance of the base or of the subclass. First reads must return the declared default, call no "
             "handler and return the identical object on the second read; a default reported to handlers on del must "
             "be the object read afterwards; _name_default runs at most once per unassigned period. After every "
@@ -211,10 +211,10 @@ CHECKS["C10"] = {
 CHECKS["C11"] = {
     "category": "model_checking",
     "technique": MC + " (history BFS with dedup on the reference model state; two-dict model of delegation/prototyping)",
-    "text": "DelegatesTo and PrototypedFrom in all four prefix styles (same name, explicit name, 'prefix*', '*' with "
-            "__prefix__) plus a three-level renaming chain; one deferring object, two candidate delegates; every "
+    "text": "DelegatesTo and PrototypedFrom in five prefix styles (same name, explicit name, 'prefix*', one-character '_*', '*' with "
+            "__prefix__), a listenable=False attribute, a second prototype level, a strict (Disallow) target class, plus a three-level renaming chain; one deferring object, two candidate delegates; every "
             "history up to depth 3 (4 thorough; 5 and 6 for the two-attribute class and the chain) over ~75 events (valid/invalid assignment through the deferring "
-            "object, assignment on either delegate, delegate swap, deletion of the local value). After every step "
+            "object, assignment on either delegate, delegate swap, deletion with and without a local value). After every step "
             "all reads through both objects must equal a two-dict reference model, DelegatesTo writes must land in "
             "the delegate only, invalid writes must raise TraitError and change nothing, PrototypedFrom must break "
             "and restore the link, and on_trait_change/observe handlers of each deferring attribute must be called "
@@ -230,7 +230,7 @@ CHECKS["C13"] = {
             "base class declaring Int/ReadOnly/Constant/Event and two wildcards a subclass declaring a longer "
             "wildcard and re-declaring one trait, and a multiple-inheritance subclass whose wildcards come from its "
             "second base only. Every history up to depth 3 (5 thorough) over get / set(int) / "
-            "set(str) / set(None) / del / add_trait / a second add_trait without removal / remove_trait on an "
+            "set(str) / set(None) / del / add_trait / a second add_trait without removal / add_trait of a List (whose _items companion must follow) / remove_trait / reads and writes of the _items companion / add_class_trait of a wildcard on the base on an "
             "instance of each class, with *definition "
             "of the subclass* as an event. Each step must give the same outcome class and value as on a twin "
             "hierarchy in which the governing trait (per an independent resolver: instance trait > declared > "
@@ -244,11 +244,11 @@ CHECKS["C13"] = {
 CHECKS["C20"] = {
     "category": "model_checking",
     "technique": MC + " (history BFS with dedup on values+link graph+liveness; directed link graph with transitive propagation as reference; explicit GC events; internal handler exceptions captured)",
-    "text": "Three objects with two Int and two List(Int) traits and a Property whose setter refuses one value with "
-            "ValueError; every history up to depth 3 (4 thorough) over ~95 "
+    "text": "Three objects with two Int and three List(Int) traits (one with a default method) and a Property whose setter refuses one value with "
+            "ValueError; every history up to depth 3 (4 thorough) over ~100 "
             "events: sync/unsync in 9 styles (mutual, one-way, alias, second partner; scalar and list), scalar "
             "assignments on every side, 15 list mutators on four lists (incl. extended-slice set/delete with positive "
-            "and negative step, +=, *=, sort, reverse, clear, whole-value), garbage collection of a partner. After "
+            "and negative step, +=, *=, sort, reverse, clear, whole-value), del of a synchronised attribute, garbage collection of a partner. After "
             "each step everything reachable along link direction from the changed attribute must equal it, "
             "everything else must be untouched (one-way reverse direction, former partners, after unsync/GC), no "
             "handler is called twice for one change, nothing is raised to the caller or inside the library's own "
@@ -262,9 +262,9 @@ CHECKS["C14"] = {
     "technique": MC + " (history BFS to reach object states, then every copy operation + fixed liveness suite; differential round-trip of trait definitions)",
     "text": "Part A: an object with List/List(List)/Dict(Str,List)/Set/Dict keyed by objects, an Instance graph with "
             "sharing, transient, ReadOnly, UUID(can_init), Map, copy='ref'/'shallow'/'deep' metadata, an observed "
-            "cached Property, an @observe method and a static items handler; every history up to depth 3 (4 "
+            "cached Property, an @observe method, an @observe(post_init=True) method and a static items handler; every history up to depth 3 (4 "
             "thorough) over 26 events, then each of pickle protocols 0-5, deepcopy, clone_traits(), "
-            "clone_traits('deep'), clone_traits('shallow'): same class, equal non-transient state, transient at "
+            "clone_traits('deep'), clone_traits('shallow'), and a copy of the copy: same class, equal non-transient state, transient at "
             "default, no mutable object (container or node, incl. dict keys) shared with the original, inited flag "
             "kept, and a liveness suite on the copy (13 invalid insertions/assignments into every nested container "
             "must raise TraitError, one valid append must call the copy's items handler and @observe method once and "
@@ -297,8 +297,8 @@ CHECKS["C15"] = {
 CHECKS["C17"] = {
     "category": "exploration",
     "technique": "bounded exhaustive enumeration of offer sequences x source x target against a brute-force chain search",
-    "text": "Four type universes (linear 3-level hierarchy + intermediates, diamond with multiple inheritance, ABCs "
-            "with virtual registration, a target whose instances are falsy): every sequence (multiset in every "
+    "text": "Six type universes (linear 3-level hierarchy + intermediates, diamond with multiple inheritance, ABCs "
+            "with virtual registration, a target whose instances are falsy, two chains of different length branching from one source, ABC registration after the first query): every sequence (multiset in every "
             "registration order, duplicates and cycles included) of up to 3 offers (linear) / 2 (others) (+1 "
             "thorough) over all ordered type pairs x {adapter, conditional factory returning None, conditional factory refusing the bare source}, for every source "
             "type and target, on a fresh AdaptationManager: adapt returns the object itself when it provides the "
@@ -306,7 +306,7 @@ CHECKS["C17"] = {
             "whose factories all succeed, else AdaptationError / the supplied default; the chain actually used "
             "(recorded by instrumented factories) is one of the valid chains, has minimum length, and no "
             "single-step offer for a base type is used when one for its subclass would do. For all sequences of up "
-            "to 2 offers Supports, AdaptsTo, Instance(adapt='yes') and BaseInstance(adapt='yes') assignment (global "
+            "to 2 offers Supports, AdaptsTo, Instance(adapt='yes'), BaseInstance(adapt='yes'), Either(Str, Supports), Either(Supports, Str) and List(Supports) assignment of the source object and of int-like non-adaptable values (global "
             "manager swapped in) must give the same verdict, stored value and shadow value, AdaptsTo reached through PrototypedFrom must store the original, and re-assigning the "
             "same object after a new offer was registered must refresh the AdaptsTo shadow.",
     "note": "<=3/4 offers; factories without side effects or adaptee-dependent conditions; ties between unrelated "
@@ -315,7 +315,7 @@ CHECKS["C17"] = {
 CHECKS["C19"] = {
     "category": "model_checking",
     "technique": "exhaustive single-fault enumeration: every user-callback invocation of every scenario raises each of 4 exception classes on freshly rebuilt objects; pre-state / fault-free-twin comparison",
-    "text": "51 operations with user callbacks (custom TraitType.validate on assignment, trait_set, trait_setq, "
+    "text": "53 operations with user callbacks (custom TraitType.validate on assignment, trait_set, trait_setq, "
             "quiet trait_set and constructor; second alternative of a Union; _name_default and factory defaults on "
             "read and on del; property getter, setter, validator and cached getter; List/Dict/Set item, key and value "
             "validators at every item of append/extend/insert/slice/+=/update/|=/^=/setdefault/whole-value "
@@ -326,7 +326,7 @@ CHECKS["C19"] = {
             "k<=n and each of TraitError/ValueError/AttributeError/RuntimeError the k-th invocation raises. "
             "Outcome-deciding callbacks: the caller gets the injected exception object or a TraitError, the full "
             "snapshot (values by identity, container contents, notifier fingerprint, caches, raw containers) equals "
-            "the pre-state, no handler was called, and an 18-step follow-up suite behaves as on an object that never "
+            "the pre-state, no handler was called, and a 20-step follow-up suite (starting with reads of the cached properties) behaves as on an object that never "
             "saw the operation. Change handlers: the operation completes, state and every other handler's log equal "
             "the fault-free run, follow-up equals the fault-free twin.",
     "note": "one fault per operation; post_setattr not in the statement's callback list; single keyword for "
@@ -340,7 +340,7 @@ CHECKS["C18"] = {
             "two thorough) of the drivers of C01-C04, C08-C14, C16, C17, C19, C20 at their quick bounds, i.e. all "
             "operation families incl. every C19 fault position, C14 trait-definition pickle/copy round trips of ~60 "
             "definition kinds and explicit GC events; any sanitizer report, signal or SystemError kills the worker "
-            "and is reported with the journalled case. (ii) a 58-cell reference-neutrality menu (success and every "
+            "and is reported with the journalled case. (ii) a 60-cell reference-neutrality menu (success and every "
             "error exit of set/get/del for every validator kind, properties whose getter/setter raise, failing "
             "defaults, delegates without delegate / with invalid values / prefixes, str-subclass and non-str names, "
             "handlers added, removed or raising during dispatch, an earlier anytrait handler removing a later one, "
